@@ -1,4 +1,6 @@
 #ifndef AVEL_VERIF_BLOB_HPP
 #define AVEL_VERIF_BLOB_HPP
 struct avel_verif_blob64 { unsigned char b[64]; };
+struct avel_verif_blob65 { unsigned char b[65]; };
+struct avel_verif_blob200 { unsigned char b[200]; };
 #endif
